@@ -29,6 +29,7 @@ pub struct RxCtrState {
 impl RxCtrState {
     /// Create a state synchronized to `max_ctr`, with every counter in the window
     /// behind it marked as already received (the trust-first policy for group senders).
+    #[cfg_attr(not(feature = "groups"), allow(dead_code))]
     pub const fn new(max_ctr: u32) -> Self {
         Self {
             max_ctr,
